@@ -111,6 +111,45 @@ func envOr(k, d string) string {
 }
 
 func runCheck(prop, tier, repo, verif string, only *Oblig) int {
+	if strings.Contains(prop, ",") || prop == "all" {
+		// several properties in one process (development convenience; the registered
+		// commands run one property each)
+		var ps []string
+		if prop == "all" {
+			for p := range propertyRules {
+				if strings.HasPrefix(p, "C") {
+					ps = append(ps, p)
+				}
+			}
+			sort.Strings(ps)
+		} else {
+			ps = strings.Split(prop, ",")
+		}
+		P, err := Load(repo)
+		if err != nil {
+			fmt.Fprintf(os.Stderr, "pebcheck: cannot analyse %s: %v\n", repo, err)
+			return 2
+		}
+		rc := 0
+		seed, _ := strconv.ParseInt(os.Getenv("VERIF_SEED"), 10, 64)
+		for _, p := range ps {
+			rules, ok := propertyRules[p]
+			if !ok {
+				continue
+			}
+			r := NewRun(P, p, tier, seed, verif)
+			r.Explain(propertyExplain[p])
+			for _, rule := range rules {
+				rule(r)
+			}
+			c := r.Finish()
+			fmt.Printf("RESULT %s exit=%d\n", p, c)
+			if c > rc {
+				rc = c
+			}
+		}
+		return rc
+	}
 	rules, ok := propertyRules[prop]
 	if !ok {
 		fmt.Fprintf(os.Stderr, "pebcheck: property %q is not claimed (see MANIFEST.json not_applicable)\n", prop)
